@@ -331,7 +331,7 @@ def aeropoint_level(rep, tier, timeout):
         npan = sum((s["mesh"].shape[0] - 1) * (s["mesh"].shape[1] - 1) for s in surfaces)
         gam = symarray("circulations", (npan,))
         om_, cg = symarray("omega", (3,)), symarray("cg", (3,))
-        G = groups.aeropoint_symbolic(surfaces, meshes, rotational=True, circulations=gam, external={"omega": om_, "cg": cg})
+        G = groups.aeropoint_symbolic(surfaces, meshes, rotational=True, circulations=gam, external={"omega": om_, "cg": cg}, rep=rep)
         G.encode(rep)
         al, be, v, rho = var("alpha"), var("beta"), var("v"), var("rho")
         # the flight-condition symbols are created by the pipe under their promoted names: scalars of shape (1,)
